@@ -7,12 +7,16 @@
    container  [sidecar reslist(requests) reslist(limits)]
    labels     [n (key string)*n]
    ann        [0] | [1] | [2 n (idx (present mant code)*4)*n]
+   annval     [1] | [2 n (idx (present mant code)*4)*n]        (ann without the "absent" case)
    pod        labels [present prio] string(status qos) [n container*n](init) [n container*n]
-              reslist(overhead) ann
+              reslist(overhead) ([0] | [1 reslist(requests) reslist(limits)])(spec.resources)
+              ann [n (key ann)*n](other annotations)
    selector   [kind key string]      kind 0 nil, 1 empty, 2 matchLabels, 3 invalid
    profile    [name selector(ns) selector(pod) [kind n](probability) skipres labels
                [n (old new)*n] [n (key string)*n] string(qos) [kind value](priority class)
-               [present value](koordinator priority)]
+               [present value](koordinator priority)
+               [n (key ann)*n](annotations) [n (old new)*n](annotationKeysMapping)]
+               annotation key 0 = the summary annotation, >= 1 other keys
    env        [ns_present labels rand gate_skipres gate_noext]
    every input is prefixed by its stream tag (101 validate, 102 mutate)
 
@@ -21,6 +25,7 @@
                  [n  (requests: (present hi lo) for keys 0..6, limits: same)*n]   init
                  [n  ...]                                                          containers
                  overhead: (present hi lo) for keys 0..6
+                 spec.resources: [present requests limits]   (both lists as above, zeros when absent)
                  ann: [0] | [2] | [1 n (idx (present hi lo)*4)*n]
    amount = hi*10^18 + lo  nano-units. *)
 From Coq Require Import String Ascii List ZArith Bool.
@@ -59,6 +64,12 @@ Definition qty_mult (code : Z) : Z :=
   | 11 => 1000000                   (* three decimal places *)
   | 12 => 100000                    (* four decimal places *)
   | 13 => 1                         (* nine decimal places *)
+  | 14 => 1000000                   (* exponent notation  <mant>e-3 *)
+  | 15 => nano * 1000               (* <mant>e3 *)
+  | 16 => nano * 1099511627776      (* Ti *)
+  | 17 => nano * 1125899906842624   (* Pi *)
+  | 18 => nano                      (* explicit sign  +<mant> *)
+  | 19 => 1000                      (* <mant>E-6 *)
   | _ => nano
   end.
 Definition dec_qty (mant code : Z) : Z := mant * qty_mult code.
@@ -130,6 +141,28 @@ Definition dec_opt (l : list Z) : option Z * list Z :=
   | _ => (None, [])
   end.
 
+Definition dec_plres (l : list Z) : option (reslist * reslist) * list Z :=
+  match l with
+  | 0 :: r => (None, r)
+  | _ :: r0 =>
+      let '(rq, r1) := dec_reslist r0 in
+      let '(lm, r2) := dec_reslist r1 in
+      (Some (rq, lm), r2)
+  | [] => (None, [])
+  end.
+(* an annotation map: a later duplicate key wins; "absent" values are not stored *)
+Definition dec_kann (l : list Z) : (Z * ann) * list Z :=
+  match l with
+  | k :: r0 => let '(a, r1) := dec_ann r0 in ((k, a), r1)
+  | [] => ((0, AnnAbsent), [])
+  end.
+Definition is_absent (a : ann) : bool := match a with AnnAbsent => true | _ => false end.
+Definition dec_annmap (l : list Z) : annmap * list Z :=
+  let '(kvs, r) := decode_seq dec_kann l in
+  (fold_left (fun acc kv => if is_absent (snd kv) then acc else oset (fst kv) (snd kv) acc) kvs [], r).
+(* the summary key (0) is carried by p_ann, not by the map of the other annotations *)
+Definition drop_key0 (m : annmap) : annmap := filter (fun kv => negb (fst kv =? A_SPEC)) m.
+
 Definition dec_pod (l : list Z) : pod * list Z :=
   let '(lb, r1) := dec_labels l in
   let '(pr, r2) := dec_opt r1 in
@@ -137,8 +170,10 @@ Definition dec_pod (l : list Z) : pod * list Z :=
   let '(ini, r4) := decode_seq dec_container r3 in
   let '(cs, r5) := decode_seq dec_container r4 in
   let '(oh, r6) := dec_reslist r5 in
-  let '(an, r7) := dec_ann r6 in
-  (mkPod lb pr sq ini cs oh an, r7).
+  let '(pl, r7) := dec_plres r6 in
+  let '(an, r8) := dec_ann r7 in
+  let '(oa, r9) := dec_annmap r8 in
+  (mkPod lb pr sq ini cs oh pl an (drop_key0 oa), r9).
 
 Definition dec_selector (l : list Z) : selector * list Z :=
   match l with
@@ -181,10 +216,12 @@ Definition dec_profile (l : list Z) : profile * list Z :=
           let '(q, r8) := dec_str r7 in
           let '(pc, r9) := dec_pcref r8 in
           let '(kp, r10) := dec_opt r9 in
-          (mkProf name nss sel pb (zb skip) lbs km sfx q pc kp, r10)
-      | [] => (mkProf name nss sel pb false [] [] [] EmptyString PcNone None, [])
+          let '(ans, r11) := decode_seq dec_kann r10 in
+          let '(akm, r12) := decode_seq dec_pair r11 in
+          (mkProf name nss sel pb (zb skip) lbs km sfx q pc kp ans akm, r12)
+      | [] => (mkProf name nss sel pb false [] [] [] EmptyString PcNone None [] [], [])
       end
-  | [] => (mkProf 0 SelNil SelNil None false [] [] [] EmptyString PcNone None, [])
+  | [] => (mkProf 0 SelNil SelNil None false [] [] [] EmptyString PcNone None [] [], [])
   end.
 
 Definition dec_env (l : list Z) : env * list Z :=
@@ -212,7 +249,7 @@ Definition dec_validate (inp : list Z) : bool * Z * pod * pod :=
       let '(old, r1) := dec_pod r0 in
       let '(new, _) := dec_pod r1 in
       (zb g, op, old, new)
-  | _ => (false, 0, mkPod [] None EmptyString [] [] [] AnnAbsent, mkPod [] None EmptyString [] [] [] AnnAbsent)
+  | _ => (false, 0, mkPod [] None EmptyString [] [] [] None AnnAbsent [], mkPod [] None EmptyString [] [] [] None AnnAbsent [])
   end.
 
 (* ------------------------------------------------------------------ observable side *)
@@ -245,10 +282,15 @@ Definition enc_ann (a : ann) : list Z :=
   | AnnBad => [2]
   | AnnSpec s => 1 :: Z.of_nat (length s) :: flat_map enc_ann_entry s
   end.
+Definition enc_plres (o : option (reslist * reslist)) : list Z :=
+  match o with
+  | Some (rq, lm) => 1 :: enc_reslist rq ++ enc_reslist lm
+  | None => 0 :: enc_reslist [] ++ enc_reslist []
+  end.
 Definition enc_pod (p : pod) : list Z :=
   flat_map (enc_label (p_labels p)) LABEL_KEYS ++ enc_opt (p_prio p)
   ++ enc_containers (p_init p) ++ enc_containers (p_ctrs p)
-  ++ enc_reslist (p_overhead p) ++ enc_ann (p_ann p).
+  ++ enc_reslist (p_overhead p) ++ enc_plres (p_plres p) ++ enc_ann (p_ann p).
 
 (* decoding an observed pod (for deciding the property on what the implementation produced) *)
 Definition dec_amount (l : list Z) : option Z * list Z :=
@@ -297,15 +339,25 @@ Definition dec_obs_ann (l : list Z) : ann * list Z :=
   | _ :: r => (AnnBad, r)
   | [] => (AnnBad, [])
   end.
-(* status qos and the sidecar flags are not part of the observation: taken from the input pod *)
+Definition dec_obs_plres (l : list Z) : option (reslist * reslist) * list Z :=
+  match l with
+  | p :: r0 =>
+      let '(rq, r1) := dec_obs_reslist RES_KEYS r0 in
+      let '(lm, r2) := dec_obs_reslist RES_KEYS r1 in
+      ((if zb p then Some (rq, lm) else None), r2)
+  | [] => (None, [])
+  end.
+(* status qos, the sidecar flags and the annotations other than the summary are not part of
+   the observation *)
 Definition dec_obs_pod (l : list Z) : pod * list Z :=
   let '(lb, r1) := dec_obs_labels LABEL_KEYS l in
   let '(pr, r2) := dec_opt r1 in
   let '(ini, r3) := decode_seq dec_obs_container r2 in
   let '(cs, r4) := decode_seq dec_obs_container r3 in
   let '(oh, r5) := dec_obs_reslist RES_KEYS r4 in
-  let '(an, r6) := dec_obs_ann r5 in
-  (mkPod lb pr EmptyString ini cs oh an, r6).
+  let '(pl, r6) := dec_obs_plres r5 in
+  let '(an, r7) := dec_obs_ann r6 in
+  (mkPod lb pr EmptyString ini cs oh pl an [], r7).
 
 Fixpoint eq_listZ (a b : list Z) : bool :=
   match a, b with
@@ -325,32 +377,56 @@ Definition untag (tag : Z) (inp : list Z) : option (list Z) :=
   | [] => None
   end.
 
-(* validate: observable [allowed mask] *)
+(* validate: observable [allowed mask handle]
+   handle = verdict of the production entry point PodValidatingHandler.Handle (raw objects
+   decoded by the admission decoder, the whole chain of pod validators) on the same request:
+   1 allowed, 0 denied, 2 not driven (the webhook is registered for CREATE and UPDATE only).
+   For the pods of this stream no other validator of the chain has an opinion, so the verdict
+   is the one of the colocation validator. *)
+Definition OP_DELETE : Z := 2.
+Definition handle_driven (op : Z) : bool := negb (op =? OP_DELETE).
 Definition run_validate_body (inp : list Z) : list Z :=
   let '(g, op, old, new) := dec_validate inp in
   let m := validate g op old new in
-  [bz (m =? 0); m].
+  [bz (m =? 0); m; if handle_driven op then bz (m =? 0) else 2].
 Definition run_validate (inp : list Z) : list Z :=
   match untag TAG_VALIDATE inp with Some body => run_validate_body body | None => [-1] end.
 
-(* mutate: three admissions, each a length-prefixed block
+(* mutate: admissions, each a length-prefixed block
      [1]                          the admission failed
      [0 lost1 lost2 pod...]       lostN = mutator N changed the pod but reported "not mutated"
-   block 1: Create on the input pod; block 2: Update on the result of 1; block 3: Create again
-   on the result of 1.  Blocks 2 and 3 are absent when admission 1 failed. *)
+   block 1: Create on the input pod (the two mutators of the property, called in the order of
+            handleCreate);
+   block 2: Create through the production entry point PodMutatingHandler.Handle (admission
+            decoder, every mutator of handleCreate, the JSON patch of the response applied to
+            the submitted object) -- lost bits are 0 there: a lost "mutated" flag shows as a
+            missing patch, i.e. in the pod itself;
+   and when admission 1 succeeded:
+   block 3: Update on the result of 1 (extendedResourceSpecMutatingPod with operation Update);
+   block 4: Create again on the result of 1;
+   block 5: Update through Handle on the result of 2 (handleUpdate runs no mutator). *)
 Definition enc_result (r : option pod) : list Z :=
   match r with
   | None => [1]
   | Some p => 0 :: 0 :: 0 :: enc_pod p
   end.
+(* PodMutatingHandler.Handle on the pods of this stream: the other mutators of the chain
+   (multi-quota-tree affinity, device resources) have nothing to do *)
+Definition handle_pod (e : env) (op : Z) (ps : list profile) (p : pod) : option pod :=
+  if op =? OP_CREATE then admit_pod e OP_CREATE ps p else Some p.
 Definition run_mutate_body (inp : list Z) : list Z :=
   let '(e, ps, p) := dec_mutate inp in
   match admit_pod e OP_CREATE ps p with
-  | None => encode_list (enc_result None)
+  | None => encode_list (enc_result None) ++ encode_list (enc_result (handle_pod e OP_CREATE ps p))
   | Some p1 =>
       encode_list (enc_result (Some p1))
+      ++ encode_list (enc_result (handle_pod e OP_CREATE ps p))
       ++ encode_list (enc_result (admit_pod e OP_UPDATE ps p1))
       ++ encode_list (enc_result (admit_pod e OP_CREATE ps p1))
+      ++ encode_list (match handle_pod e OP_CREATE ps p with
+                      | Some ph => enc_result (handle_pod e OP_UPDATE ps ph)
+                      | None => enc_result None
+                      end)
   end.
 Definition run_mutate (inp : list Z) : list Z :=
   match untag TAG_MUTATE inp with Some body => run_mutate_body body | None => [-1] end.
